@@ -42,32 +42,6 @@ Fixpoint fitsb (k : nat) (s : stmt) {struct k} : bool :=
   end.
 
 
-(* ---- statements covered by the pass2 simulation proof (RwCorrect.v) ---- *)
-Definition init_ok (i : option stmt) : bool :=
-  match i with None => true | Some (SAtom _) => true | _ => false end.
-Definition is_if (s : stmt) : bool := match s with SIf _ _ _ _ => true | _ => false end.
-
-Fixpoint supp (k : nat) (s : stmt) {struct k} : bool :=
-  match k with 0 => false | S k =>
-    match s with
-    | SAtom _ | SYield _ | SBreak | SContinue | SFallthrough => true
-    | SRet XReturn => true
-    | SBlock b => forallb (supp k) b
-    | SIf i c t e =>
-        init_ok i && forallb (supp k) t &&
-        match e with
-        | ENone => true
-        | EElse b => forallb (supp k) b
-        | EElif x => is_if x && supp k x
-        end
-    | SFor i c p b => init_ok i && init_ok p && forallb (supp k) b
-    | _ => false
-    end
-  end.
-
-Definition supps (k : nat) (l : list stmt) : bool := forallb (supp k) l.
-
-
 (* ---- legality of generated code (Strict.v) ---- *)
 Definition is_sig (x : sexp) : bool := match x with XNormal | XBreak | XContinue | XReturn => true | _ => false end.
 
@@ -105,6 +79,39 @@ Fixpoint okb (k : nat) (il isw fall : bool) (s : stmt) {struct k} : bool :=
 (* the compiled body handed to Start(Delay(func() Seq { out })) *)
 Definition legalb (k : nat) (out : list stmt) : bool :=
   okt (forallb (okb k false false false)) (TLit out).
+
+
+(* ---- statements covered by the pass2 simulation proof (RwCorrect.v) ---- *)
+Definition init_ok (i : option stmt) : bool :=
+  match i with None => true | Some (SAtom _) => true | _ => false end.
+Definition is_if (s : stmt) : bool := match s with SIf _ _ _ _ => true | _ => false end.
+
+(* a case body the proof covers: supported statements that never leave the clause by break
+   or fallthrough (the rewriter mistranslates a break that ends up inside a callback: finding F2) *)
+Definition clause_ok (sup : stmt -> bool) (k : nat) (b : list stmt) : bool :=
+  forallb sup b && forallb (fitsb k) b && negb (has_break (S k) (SBlock b)) && forallb (okb k true true false) b.
+
+Fixpoint supp (k : nat) (s : stmt) {struct k} : bool :=
+  match k with 0 => false | S k =>
+    match s with
+    | SAtom _ | SYield _ | SBreak | SContinue | SFallthrough => true
+    | SRet XReturn => true
+    | SBlock b => forallb (supp k) b
+    | SIf i c t e =>
+        init_ok i && forallb (supp k) t &&
+        match e with
+        | ENone => true
+        | EElse b => forallb (supp k) b
+        | EElif x => is_if x && supp k x
+        end
+    | SFor i c p b => init_ok i && init_ok p && forallb (supp k) b
+    | SSwitch i t cs => init_ok i && forallb (fun lb => clause_ok (supp k) k (snd lb)) cs
+    | _ => false
+    end
+  end.
+
+Definition supps (k : nat) (l : list stmt) : bool := forallb (supp k) l.
+
 
 
 (* pass0 followed by pass2: the callback body before pass3 *)
